@@ -56,6 +56,7 @@ type Contract struct {
 	Ats      []*AtSpec
 	Flags    map[string]string // trusted, pure, inline, frame, panics, ...
 	Params   []Param           // lemma parameters
+	FlagScope map[string][]string // properties a flag applies to (nil / empty: all)
 	Extra    []*Clause         // property-specific clauses: balanced, order, noescape, nowrite, fresh, ...
 }
 
@@ -339,6 +340,11 @@ func (sw *SpecWorld) parseDirective(file, pkg string, d rawLine, body []rawLine)
 		if err := parseClauses(c, file, body); err != nil {
 			return err
 		}
+		// flags (abstract keys, mode, safety ...) belong to the properties of their block as well
+		c.FlagScope = map[string][]string{}
+		for k := range c.Flags {
+			c.FlagScope[k] = c.Props
+		}
 		// a clause without a property scope of its own belongs to the properties of its block
 		if len(c.Props) > 0 {
 			scope := func(cls []*Clause) {
@@ -395,6 +401,17 @@ func (sw *SpecWorld) parseDirective(file, pkg string, d rawLine, body []rawLine)
 			prev.Extra = append(prev.Extra, c.Extra...)
 			for k, v := range c.Flags {
 				prev.Flags[k] = v
+				if prev.FlagScope == nil {
+					prev.FlagScope = map[string][]string{}
+				}
+				if old, had := prev.FlagScope[k]; had && len(old) == 0 {
+					continue // already unconditional
+				}
+				if len(c.Props) == 0 {
+					prev.FlagScope[k] = nil
+				} else {
+					prev.FlagScope[k] = append(append([]string{}, prev.FlagScope[k]...), c.Props...)
+				}
 			}
 			for k, l := range c.Loops {
 				if pl, ok := prev.Loops[k]; ok {
